@@ -488,6 +488,8 @@ class Evaluator:
                 for e in t.elts:
                     self.assign(e.value if isinstance(e, ast.Starred) else e, TOP, env, fi)
                 return
+            if v is None or isinstance(v, (bool, int, float)):
+                raise Raised("TypeError", t, "cannot unpack non-iterable object")
             items = list(self.iterate(v, t))
             star = [i for i, e in enumerate(t.elts) if isinstance(e, ast.Starred)]
             if star:
